@@ -216,6 +216,27 @@ def _accumulates(body, rv, target, outer, loop, depth=0):
     return False
 
 
+def _named_root(body, op, depth=0):
+    """the local an `&mut x` / `&mut *x` / deref_mut(x) argument ultimately borrows"""
+    pl = op_place(op)
+    if pl is None:
+        return None
+    l = place_local(pl)
+    if body.local_name(l) or depth > 6:
+        return l
+    for (bb, i, rv) in body.defs.get(l, []):
+        if i == "call":
+            c = rv
+            if c.args and ("deref" in c.d or "as_mut" in c.d or "borrow_mut" in c.d):
+                return _named_root(body, c.args[0], depth + 1)
+            continue
+        if rv[0] == "ref":
+            return _named_root(body, ("mv", rv[2]), depth + 1)
+        if rv[0] in ("use", "cast"):
+            return _named_root(body, rv[1] if rv[0] == "use" else rv[2], depth + 1)
+    return l
+
+
 def loop_effects(prog, body, header, cache):
     """order-dependent effects of the natural loop whose header holds the hash iterator's next()"""
     loop = set(body.loop_blocks(header)) | {header}
@@ -285,7 +306,17 @@ def loop_effects(prog, body, header, cache):
             if KEYED.search(c.f) or KEYED.search(c.d):
                 ok.append("entry stored under its own key in %s" % (body.local_name(r) or "_%d" % r))
             elif SEQ_SINK.search(c.f) or SEQ_SINK.search(c.d):
-                sens.append("%s on `%s` (line %s): the sequence is built in hash order" % (c.d.split("::")[-1], body.local_name(r) or "_%d" % r, c.line))
+                # a sequence that is sorted after the loop is order-free again
+                sorted_after = False
+                for x in body.live_calls():
+                    if x.bb in loop or not re.search(r"::sort(_by|_by_key|_unstable|_unstable_by|_unstable_by_key|_by_cached_key)?$", x.d):
+                        continue
+                    if any(_named_root(body, a2) == r for a2 in x.args):
+                        sorted_after = True
+                if sorted_after:
+                    ok.append("sequence `%s` filled in hash order and sorted afterwards" % (body.local_name(r) or "_%d" % r))
+                else:
+                    sens.append("%s on `%s` (line %s): the sequence is built in hash order" % (c.d.split("::")[-1], body.local_name(r) or "_%d" % r, c.line))
             elif c.d.startswith("core::fmt") or c.d.startswith("std::fmt") or "Formatter" in c.d or "fmt::Arguments" in c.d:
                 continue
             elif c.o.startswith("std::io::Write::") or c.o.startswith("core::fmt::Write::"):
